@@ -13,6 +13,7 @@ pub mod c11;
 pub mod c12;
 pub mod c15;
 pub mod c16;
+pub mod c17;
 pub mod c13;
 pub mod c14;
 
@@ -28,5 +29,5 @@ pub struct Check {
 }
 
 pub fn all() -> Vec<Check> {
-    vec![c01::CHECK, c02::CHECK, c03::CHECK, c04::CHECK, c05::CHECK, c06::CHECK, c07::CHECK, c08::CHECK, c09::CHECK, c10::CHECK, c11::CHECK, c12::CHECK, c15::CHECK, c16::CHECK, c13::CHECK, c14::CHECK]
+    vec![c01::CHECK, c02::CHECK, c03::CHECK, c04::CHECK, c05::CHECK, c06::CHECK, c07::CHECK, c08::CHECK, c09::CHECK, c10::CHECK, c11::CHECK, c12::CHECK, c15::CHECK, c16::CHECK, c17::CHECK, c13::CHECK, c14::CHECK]
 }
